@@ -130,7 +130,42 @@ func checkBigIntAliasing(p *core.Program, r *core.Report, rule string, inPkg fun
 			}
 		}
 	}
-	r.Count("big.Int value copies examined", nCopies)
+	// the mirror image: a local big.Int *variable* initialised by copying another big.Int by value (c := table[i].(big.Int),
+	// c := *p, c := node.value()) and then used as the receiver of a mutating method. The copy shares the source's digit
+	// array; Add/Mul/Set… write into it when its capacity suffices — i.e. into the object the value was copied from
+	nRecv := 0
+	for _, fn := range p.RepoFuncs() {
+		if !inPkg(pkgPathOf(fn)) {
+			continue
+		}
+		for _, b := range fn.Blocks {
+			for _, in := range b.Instrs {
+				c, ok := in.(ssa.CallInstruction)
+				if !ok {
+					continue
+				}
+				f := c.Common().StaticCallee()
+				if f == nil || f.Signature.Recv() == nil || !isBigIntType(f.Signature.Recv().Type()) || bigIntReadOnly[f.Name()] || len(c.Common().Args) == 0 {
+					continue
+				}
+				al, ok := c.Common().Args[0].(*ssa.Alloc)
+				if !ok || !isBigIntType(al.Type()) || al.Referrers() == nil {
+					continue
+				}
+				nRecv++
+				for _, ref := range *al.Referrers() {
+					st, ok := ref.(*ssa.Store)
+					if !ok || st.Addr != ssa.Value(al) {
+						continue
+					}
+					if src := sharedBigCopy(st.Val, 0); src != "" {
+						bad = append(bad, fmt.Sprintf("%s: the big.Int variable at %s is a by-value copy of %s and is then the receiver of %s at %s: the copy shares the source's digit array, so the method writes into the object the value was copied from", core.FuncName(fn), p.Pos(st.Pos()), src, f.Name(), p.Pos(c.Pos())))
+					}
+				}
+			}
+		}
+	}
+	r.Count("big.Int value copies examined", nCopies+nRecv)
 	if len(bad) == 0 {
 		r.OK(rule, "big.Int value copies are not mutated through their source", "-", "%d copies out of a *big.Int: none is followed by a mutating method on the same object", nCopies)
 		return
@@ -147,4 +182,51 @@ func calleeNameOf(in ssa.Instruction) string {
 		}
 	}
 	return "a call"
+}
+
+
+// sharedBigCopy: the big.Int value v is a by-value copy of an object that lives elsewhere (not a constant zero value, not
+// the value of an object allocated afresh in this function). Returns a description of the source, or "".
+func sharedBigCopy(v ssa.Value, depth int) string {
+	if depth > 6 {
+		return ""
+	}
+	switch x := v.(type) {
+	case *ssa.TypeAssert:
+		return "the value held in an interface (" + x.X.Name() + ")"
+	case *ssa.Extract:
+		if ta, ok := x.Tuple.(*ssa.TypeAssert); ok {
+			return "the value held in an interface (" + ta.X.Name() + ")"
+		}
+		if c, ok := x.Tuple.(*ssa.Call); ok {
+			return sharedBigCopy(c, depth+1)
+		}
+	case *ssa.UnOp:
+		if x.Op == token.MUL {
+			if obj := bigObject(x.X, 0); obj != nil {
+				return "" // the value of an object created in this function (x := *new(big.Int).SetUint64(…))
+			}
+			return "the object behind " + x.X.Name()
+		}
+	case *ssa.Index:
+		return "an element of " + x.X.Name()
+	case *ssa.Lookup:
+		return "an element of " + x.X.Name()
+	case *ssa.Field:
+		return "a field of " + x.X.Name()
+	case *ssa.Phi:
+		for _, e := range x.Edges {
+			if s := sharedBigCopy(e, depth+1); s != "" {
+				return s
+			}
+		}
+	case *ssa.Call:
+		if sc := x.Common().StaticCallee(); sc != nil && len(sc.Blocks) > 0 && core.InRepo(pkgPathOf(sc)) {
+			return "the value returned by " + sc.Name() + "()"
+		}
+		if x.Common().IsInvoke() {
+			return "the value returned by " + x.Common().Method.Name() + "()"
+		}
+	}
+	return ""
 }
